@@ -14,6 +14,7 @@ rewrite below is semantics-preserving for every program, and keeps the original 
      followed by `let x = <tail expression>`).
 """
 import copy
+import re
 
 # ----------------------------------------------------------------------------------------------
 # reference tables (the names the rule layer uses)
@@ -80,6 +81,31 @@ def walk(n):
             stack.extend(v for k, v in x.items() if isinstance(v, (dict, list)) and k != "_parent")
         elif isinstance(x, list):
             stack.extend(x)
+
+
+def externally_visible(doc):
+    """names that users of the crate can reach: `pub` items of lib.rs, of `pub mod`s, and names re-exported with `pub use`"""
+    pub_mods, reexported = set(), set()
+    for fl in doc["files"]:
+        if fl["path"].endswith("lib.rs"):
+            for it in fl["items"]:
+                if it.get("k") == "mod" and (it.get("vis") or "").startswith("pub"):
+                    pub_mods.add(it["name"])
+                if it.get("k") == "use" and (it.get("vis") or "") == "pub":
+                    reexported.update(w for w in re.split(r"[^A-Za-z0-9_]+", it.get("text", "")) if w)
+    return pub_mods, reexported
+
+
+def is_pub_fn(fn, path, vis_info):
+    """is this `pub fn` part of the crate's API (as opposed to `pub` inside a private module and not re-exported)?"""
+    if (fn.get("vis") or "") != "pub":
+        return False
+    pub_mods, reexported = vis_info
+    rel = path.split("src/")[-1]
+    if rel == "lib.rs" or fn["name"] in reexported:
+        return True
+    top = rel.split("/")[0].replace(".rs", "")
+    return top in pub_mods
 
 
 def all_fns(doc):
@@ -399,8 +425,9 @@ def inline_helpers(doc, log):
     fns = all_fns(doc)
     free = {}
     methods = {}
+    vis_info = externally_visible(doc)
     for path, owner, is_trait, fn in fns:
-        if fn.get("body") is None or fn["name"] in KNOWN_FNS or is_trait or (fn.get("vis") or "") == "pub":
+        if fn.get("body") is None or fn["name"] in KNOWN_FNS or is_trait or is_pub_fn(fn, path, vis_info):
             continue
         if any(x.get("k") == "macro" and x.get("name") in ("unimplemented", "todo") for x in walk(fn["body"])):
             continue
@@ -636,8 +663,9 @@ def _expr_body(fn):
 def inline_expr_helpers(doc, log):
     fns = all_fns(doc)
     free, methods = {}, {}
+    vis_info = externally_visible(doc)
     for path, owner, is_trait, fn in fns:
-        if fn.get("body") is None or fn["name"] in KNOWN_FNS or is_trait or (fn.get("vis") or "") == "pub":
+        if fn.get("body") is None or fn["name"] in KNOWN_FNS or is_trait or is_pub_fn(fn, path, vis_info):
             continue
         if fn.get("receiver") == "&mut self":
             continue
@@ -727,7 +755,7 @@ def try_helpers(doc, log):
     fns = all_fns(doc)
     free = {}
     for path, owner, is_trait, fn in fns:
-        if fn.get("body") is not None and owner is None and fn["name"] not in KNOWN_FNS and (fn.get("vis") or "") != "pub":
+        if fn.get("body") is not None and owner is None and fn["name"] not in KNOWN_FNS and not is_pub_fn(fn, path, externally_visible(doc)):
             free.setdefault(fn["name"], []).append(fn)
     free = {k: v[0] for k, v in free.items() if len(v) == 1}
     if not free:
